@@ -1,7 +1,7 @@
 """C18 - WebSocket receive buffering is FIFO, bounded and lossless under every schedule."""
 PROP = 'C18'
-LEAN_MODULES = ['FalconModel.WsBufProofs']
-DRIVERS = ['wbdriver']
+LEAN_MODULES = ['FalconModel.WsBufProofs', 'FalconModel.WsUnbufProofs', 'FalconModel.WsBufRefine']
+DRIVERS = ['wbdriver', 'wudriver']
 THEOREMS = [
     'Wb.inv_init', 'Wb.pumpEnqueue_inv', 'Wb.segments_preserve',
     'Wb.returned_append', 'Wb.delivered_append', 'Wb.pumpEnqueue_conserve', 'Wb.pumpEnqueue_held', 'Wb.popSeg_conserve', 'Wb.popSeg_held',
@@ -9,6 +9,15 @@ THEOREMS = [
     'Wb.held_le_capacity_succ', 'Wb.held_succ_only_when_full', 'Wb.f13_witness',
     'Wb.no_lost_wakeup', 'Wb.resolved_receive_enabled', 'Wb.disc_monotone', 'Wb.disc_set_by_pump', 'Wb.send_reports_flag',
     'Wb.stop_leaves_no_task',
+    # buffered path refines the plain FIFO queue (WsBufRefine)
+    'Fq.run_append', 'Fq.run_sound', 'Fq.run_deq_prefix', 'Wb.ops_append', 'Wb.ops_enqs', 'Wb.ops_deqs', 'Wb.pumpEnqueue_refines', 'Wb.popSeg_refines',
+    'Wb.segment_refines', 'Wb.buffered_refines_fifo', 'Wb.returned_prefix_delivered',
+    # unbuffered mode (max_receive_queue = 0): WsUnbuf / WsUnbufProofs
+    'Wu.observed_emit', 'Wu.inv_init', 'Wu.payloadObs_id', 'Wu.inv_of_frame', 'Wu.step_preserves', 'Wu.run_inv',
+    'Wu.fifo_lossless_once', 'Wu.nothing_buffered', 'Wu.mem_last_of_not_dropLast', 'Wu.disconnect_after_preceding',
+    'Wu.closed_monotone', 'Wu.dead_step', 'Wu.dead_run', 'Wu.disconnect_sticky',
+    'Wu.recv_enabled', 'Wu.deliver_enabled_iff', 'Wu.parked_receive_completes',
+    'Wu.unbuffered_refines_fifo', 'Wu.buffered_unbuffered_agree',
 ]
 STATEMENTS = {
     'Wb.segments_preserve': 'every atomic segment (what one task does between two awaits) of the pump task, of receive(), of a cancelled receive(), of _send and of stop() preserves the invariant: queue <= capacity; a pending pop-waiter implies an empty queue (no lost wake-up); a pump parked for room implies a full queue; waiter cells and attributes agree; app parked <=> pop-waiter exists; pump holding <=> put-waiter exists. Any enabled segment may fire, so the invariant holds under every schedule',
@@ -23,23 +32,49 @@ STATEMENTS = {
     'Wb.disc_set_by_pump': 'the pump segment that processes the disconnect event sets the flag in that very segment, before the event is queued and even when the queue is full',
     'Wb.send_reports_flag': '_send takes the WebSocketDisconnected branch iff the flag is set, and changes nothing',
     'Wb.stop_leaves_no_task': 'after stop() the pump has no enabled segment: no further pull, nothing left running',
+    'Fq.run_sound': 'the specification (plain FIFO queue: enq appends at the back, deq m is possible only with m at the front) is itself FIFO: dequeued ++ left = initial ++ enqueued',
+    'Wb.segment_refines': 'every atomic segment of the buffered receiver except stop(), read as FIFO operations (deliver m = enq m, recvRet m = deq m, everything else a stutter), is a run of the plain FIFO queue from held-before to held-after',
+    'Wb.buffered_refines_fifo': 'every log the trace-inclusion checker accepts (any interleaving, no stop) is a run of the plain FIFO queue under the abstraction held = queue ++ event in the pump\'s hand: each message receive() returns was at that moment the oldest event the framework held',
+    'Wb.returned_prefix_delivered': 'from a fresh receiver of any capacity: what receive() returned followed by what is held is exactly what the server delivered',
+    'Wu.step_preserves': 'every step of the unbuffered WebSocket (accept, receive_text/receive_data call, server hands over the next event and the parked call resumes, cancellation of the parked call, send with any server behaviour, close with any code) preserves: handed-over ++ still-at-the-server = arrived; the application observed every handed-over event in the step that handed it over; one pull outstanding exactly while a receive is parked; a handed-over disconnect event is the last one, the socket is then CLOSED with the client\'s code and nobody is parked',
+    'Wu.run_inv': 'the invariant holds after every schedule (induction over the label list)',
+    'Wu.fifo_lossless_once': 'unbuffered mode, every schedule: what the receives consumed followed by what is still at the server is exactly the arrival sequence (order, no loss, no duplication)',
+    'Wu.nothing_buffered': 'unbuffered mode, every schedule: the framework holds 0 events, at most one pull of the server is outstanding, and one is outstanding iff a receive is parked (nothing pulled ahead)',
+    'Wu.disconnect_after_preceding': 'unbuffered mode, every schedule: if a disconnect event was handed over it is the last event handed over, every event that arrived before it was consumed by receives before it in order, and the last consuming observation is the WebSocketDisconnected for it',
+    'Wu.closed_monotone': 'state CLOSED is kept by every step, also while a receive is still parked',
+    'Wu.dead_step': 'with state CLOSED and no parked receive every step keeps that, changes neither _close_code nor the server boundary nor what was sent, consumes nothing, and a receive call raises WebSocketDisconnected(_close_code) without pulling',
+    'Wu.disconnect_sticky': 'once a receive took the client\'s disconnect event, after every further schedule nothing more is consumed or pulled and every receive call raises WebSocketDisconnected with the client\'s code (event code, 1000 if missing or 0)',
+    'Wu.recv_enabled': 'a receive call is enabled whenever no receive is in progress',
+    'Wu.deliver_enabled_iff': 'the hand-over step is enabled iff a receive is parked and an event is available at the server',
+    'Wu.parked_receive_completes': 'a parked receive with an event available has an enabled step which completes that receive with exactly that event (fairness-free liveness: nothing inside the framework stands between the server\'s event and the parked call)',
+    'Wu.unbuffered_refines_fifo': 'after every schedule the consuming observations, read as dequeues, are a run of the plain FIFO queue from the arrival sequence to what is still at the server',
+    'Wu.buffered_unbuffered_agree': 'same arrival sequence fed to a buffered receiver (any capacity, any accepted log without stop) and to an unbuffered WebSocket (any schedule): whenever both have consumed the same number of events they have consumed the same events in the same order',
 }
 TRUSTED = [
     'asyncio\'s implementation of futures, tasks, cancellation and asyncio.wait; one `await asyncio.sleep(0)` = one turn of the ready queue',
     'the instrumentation (logging deque assigned into the _messages slot, logging future factory behind _loop) records the atomic steps faithfully',
     'the harness-side server receive() (a future per pull, resolved by the schedule) as the meaning of "the server delivers"',
+    'unbuffered mode: the harness-side server keeps an event whose pull was cancelled before the receive resumed (as asyncio.Queue.get does); the hand-over and the resumption of the parked '
+    'receive are one model step (nothing in the resumed code reads state another task could have changed in between); the server\'s send() failures are represented by one exception per class '
+    'that _translate_webserver_error distinguishes',
 ]
 ASSUMPTIONS = [
     'one receiver at a time (the framework asserts it); send/close may be issued from another task, which the schedule does',
-    'the unbuffered mode (max_receive_queue = 0) has no pump and no queue: it is covered by the statement oracle only (pass-through), not by the Lean model',
+    'unbuffered mode (max_receive_queue = 0): receive_text/receive_data, send_text, accept, close are modelled; receive_media (media handlers) and close reasons are not; a send that fails at the server, or close(), '
+    'closes the socket and later receives raise without pulling - events still at the server are then not delivered, by design (same in buffered mode)',
     'promptness of the disconnect report to a sender is stated per loop turn: after the disconnect event was handed to the pump and the ready queue has turned once, every send raises; before it was handed over, none does',
 ]
+RULE_UNBUFFERED = (' Unbuffered session (Wu model): the same enumerated {D,R,Y,C,S} schedules x k x {no disconnect, code 1001, code missing} x drain/close with accept first, plus random schedules of 3..30 steps over '
+                   '{D,R,Y,C,S,X close(code),F send failing at the server,A accept} with 0..6 text/bytes messages, receive_text/receive_data patterns, disconnect codes incl. missing and 0, an event offered after the '
+                   'disconnect, valid and invalid close codes, 9 server send-failure shapes, accept first or not; every executed atomic step (label, observation, closed/ready/unaccepted) and the final server-side counts are compared.')
 RULE = ('every schedule over {D deliver, R start receive, Y run ready queue, C cancel pending receive, S send} of length <= 4 (quick) / <= 6 (thorough), every schedule over '
         '{D,R,Y} of length 5..6 (quick) / 7..8 (thorough), each followed by a deterministic drain (deliver all, receive all) or by close(); x capacities 0..4 x k = 1..2 (quick) / 1..3 (thorough) '
         'messages x with/without a trailing disconnect; plus, for capacities 1..4, "fill the queue and park the pump" followed by every tail of <= 2 steps and drain/close; plus random schedules of 5..40 steps with k <= 8. The real falcon.asgi.ws.WebSocket (source mode) is driven; '
-        'non-trivial = at least one message was delivered and received; distinct = distinct (capacity, k, disconnect, schedule, ending)')
+        'non-trivial = at least one message was delivered and received; distinct = distinct (capacity, k, disconnect, schedule, ending)' + RULE_UNBUFFERED)
 PARTIAL = ('the theorems are about the atomic-segment model; that asyncio runs the real coroutines segment by segment as modelled is established by trace inclusion on every generated '
-           'schedule (exhaustive to the stated bounds), not by proof; liveness is stated fairness-free (no_lost_wakeup + resolved_receive_enabled), unbuffered mode is oracle-only')
+           'schedule (exhaustive to the stated bounds), not by proof; liveness is stated fairness-free (buffered: no_lost_wakeup + resolved_receive_enabled; unbuffered: deliver_enabled_iff + '
+           'parked_receive_completes). Unbuffered mode is proved over the Wu small-step model (one receiver at a time; receive_media and two concurrent receives are not modelled), which is tied to the real '
+           'WebSocket by per-step comparison on generated schedules, not by proof. stop()/close() of the buffered receiver drops what the cancelled pump holds and is excluded from the conservation/refinement theorems')
 JOBS = {'quick': 4, 'thorough': 16}
 EXHAUSTIVE = {'quick': False, 'thorough': False}
 
@@ -57,6 +92,287 @@ def schedules(quick):
     for l in range(mid[0], mid[1] + 1):
         for s in itertools.product('DRY', repeat=l):
             yield ''.join(s)
+
+
+def unbuffered_session(ctx, wsmod, errors):
+    """max_receive_queue = 0: the real WebSocket is driven step by step; every executed atomic step (label, what the application
+    observed, the public closed/ready/unaccepted properties after it) is replayed by the Wu small-step model (wudriver)."""
+    import asyncio
+    import itertools
+    sess = ctx.session('unbuffered WebSocket (max_receive_queue=0) on a scripted loop: per-step observations, properties and final server-side counts equal the Wu small-step model',
+                       'wudriver')
+    opts = wsmod.WebSocketOptions()
+    LEGEND = ('A accept, R start the next receive (t = receive_text, d = receive_data), D server hands the next event to the outstanding pull, Y one loop turn, '
+              'C cancel the pending receive, S send_text, F send_text while the server\'s send() raises <fail>, X close(<close_code>); then drain=(YYDYYRYY)* or X Y R Y Y S')
+
+    def cs(c):
+        return '-' if c is None else str(c)
+
+    def mk(tok, variant):
+        if tok[0] == 't':
+            ev = {'type': 'websocket.receive', 'text': 'm' + tok[1:]}
+            if variant: ev['bytes'] = None
+        elif tok[0] == 'b':
+            ev = {'type': 'websocket.receive', 'bytes': b'm' + tok[1:].encode()}
+            if variant: ev['text'] = None
+        else:
+            ev = {'type': 'websocket.disconnect'}
+            if tok[1:] != '-': ev['code'] = int(tok[1:])
+        return ev
+
+    def mkexc(kind):
+        if kind == 'ok1000':
+            return RuntimeError('sent 1000 (OK); then received 1000 (OK): code = 1000 (OK), no reason')
+        if kind == 'subproto':
+            return RuntimeError('protocol accepted must be from the list of requested protocols')
+        if kind == 'other':
+            return RuntimeError('boom')
+        assert kind.startswith('os:')
+        e = ConnectionResetError('client disconnected')
+        if kind == 'os:-':
+            return e
+        if kind == 'os:x':              # a cause that does not start with 'received dddd'
+            e.__cause__ = RuntimeError('sent 1001 (going away); then received 1001 (going away)')
+            return e
+        e.__cause__ = RuntimeError('received %s (going away); then sent %s (going away)' % (kind[3:], kind[3:]))
+        return e
+
+    async def run_u(evtoks, sched, pre_accept, kinds, close_code, fail_kind, ending, variant):
+        loop = asyncio.get_running_loop()
+        events = [mk(t, variant) for t in evtoks]
+        ids = [DISC if t[0] == 'd' else int(t[1:]) for t in evtoks]
+        o = {'pending': [], 'delivered': 0, 'handed': [], 'steps': [], 'observed': [], 'sent': [], 'fail': None, 'bad_pull': None,
+             'errors': [], 'cur': None, 'maxpulls': 0, 'nrecv': 0}
+
+        def flags():
+            return ('c' if ws.closed else '-') + ('r' if ws.ready else '-') + ('u' if ws.unaccepted else '-')
+
+        async def receive():
+            f = loop.create_future(); o['pending'].append(f)
+            o['maxpulls'] = max(o['maxpulls'], len(o['pending']))
+            cur = o['cur']
+            if cur is None or cur['parked']:
+                if o['bad_pull'] is None:
+                    o['bad_pull'] = ('the server was pulled although no receive was in progress' if cur is None
+                                     else 'one receive pulled the server twice')
+            else:
+                cur['parked'] = True; o['steps'].append(['R' + cur['k'], 'parked', flags()])
+            try:
+                return await f
+            except asyncio.CancelledError:
+                if f.done() and not f.cancelled():         # the server keeps an event nobody took
+                    o['delivered'] -= 1; o['handed'].pop()
+                raise
+            finally:
+                o['pending'].remove(f)
+
+        async def send(m):
+            o['sent'].append(m)
+            fk, o['fail'] = o['fail'], None
+            if fk:
+                raise mkexc(fk)
+        ws = wsmod.WebSocket('2.3', {'subprotocols': []}, receive, send, opts.media_handlers, 0, {})
+        recv_task = None
+
+        async def do_recv(k):
+            cur = {'k': k, 'parked': False}; o['cur'] = cur
+            took = None
+            try:
+                if k == 't':
+                    v = await ws.receive_text(); n = int(v[1:])
+                else:
+                    v = await ws.receive_data(); n = int(bytes(v)[1:].decode())
+                obs = 'ret:%d' % n; took = n
+            except errors.WebSocketDisconnected as e:
+                if cur['parked']:
+                    obs = 'wsdE:%s' % cs(e.code); took = DISC
+                else:
+                    obs = 'wsdS:%s' % cs(e.code)
+            except errors.PayloadTypeError:
+                took = o['handed'][-1] if o['handed'] else -1
+                obs = 'perr:%d' % took
+            except errors.OperationNotAllowed:
+                obs = 'na'
+            except asyncio.CancelledError:
+                if cur['parked']:
+                    o['steps'].append(['C', 'cancelled', flags()])
+                o['cur'] = None
+                raise
+            except BaseException as e:  # noqa
+                obs = 'raised:' + type(e).__name__
+                o['errors'].append('receive raised %s: %s' % (type(e).__name__, e))
+            o['cur'] = None
+            o['steps'].append(['D' if cur['parked'] else 'R' + k, obs, flags()])
+            if took is not None:
+                o['observed'].append(took)
+
+        async def step(ch):
+            nonlocal recv_task
+            if ch == 'A':
+                try:
+                    await ws.accept(); obs = 'acceptOk'
+                except errors.OperationNotAllowed:
+                    obs = 'na'
+                o['steps'].append(['A', obs, flags()])
+            elif ch == 'D':
+                live = [f for f in o['pending'] if not f.done()]
+                if live and o['delivered'] < len(events):
+                    ev = events[o['delivered']]; o['handed'].append(ids[o['delivered']]); o['delivered'] += 1
+                    live[0].set_result(ev)
+            elif ch == 'R':
+                if recv_task is None or recv_task.done():
+                    k = kinds[o['nrecv'] % len(kinds)]; o['nrecv'] += 1
+                    recv_task = asyncio.ensure_future(do_recv(k))
+            elif ch == 'Y':
+                await asyncio.sleep(0)
+            elif ch == 'C':
+                if recv_task is not None and not recv_task.done():
+                    recv_task.cancel()
+            elif ch in 'SF':
+                o['fail'] = fail_kind if ch == 'F' else None
+                try:
+                    await ws.send_text('x'); obs = 'sendOk'
+                except errors.WebSocketDisconnected as e:
+                    obs = 'sendWsd:%s' % cs(e.code)
+                except errors.OperationNotAllowed:
+                    obs = 'na'
+                except ValueError:
+                    obs = 'sendVE'
+                except Exception:  # noqa
+                    obs = 'sendRaised'
+                o['fail'] = None
+                o['steps'].append(['S' if ch == 'S' else 'S:' + ('os:-' if fail_kind == 'os:x' else fail_kind), obs, flags()])
+            elif ch == 'X':
+                before = len(o['sent'])
+                try:
+                    await ws.close(close_code)
+                    obs = 'closeSent:%d' % o['sent'][-1]['code'] if len(o['sent']) > before else 'closeNoop'
+                except ValueError:
+                    obs = 'closeVE'
+                o['steps'].append(['X:' + cs(close_code), obs, flags()])
+        if pre_accept:
+            await step('A')
+        for ch in sched:
+            await step(ch)
+        if ending == 'close':
+            for ch in 'XYRYYS':
+                await step(ch)
+        else:
+            for _ in range(len(events) + 2):
+                for ch in 'YYDYYRYY':
+                    await step(ch)
+        for _ in range(4):
+            await step('Y')
+        waiting = recv_task is not None and not recv_task.done()
+        final = 'pending=%d taken=%s observed=%s pulls=%d sent=%s' % (
+            len(events) - o['delivered'], ' '.join(map(str, o['handed'])), ' '.join(map(str, o['observed'])),
+            len([f for f in o['pending'] if not f.done()]),
+            ','.join({'websocket.accept': 'a', 'websocket.send': 't'}.get(m['type']) or 'c%d' % m['code'] for m in o['sent']))
+        steps = [list(x) for x in o['steps']]
+        undelivered = len(events) - o['delivered']
+        if waiting:
+            recv_task.cancel()
+        if recv_task is not None:
+            await asyncio.gather(recv_task, return_exceptions=True)
+        try:
+            await ws.close()
+        except Exception:  # noqa
+            pass
+        for f in list(o['pending']):
+            f.cancel()
+        await asyncio.sleep(0)
+        left = [t for t in asyncio.all_tasks() if t is not asyncio.current_task() and not t.done()]
+        for t in left:
+            t.cancel()
+        if left:
+            await asyncio.gather(*left, return_exceptions=True)
+        return o, steps, final, waiting, undelivered, ids, len(left)
+
+    def judge_u(evtoks, sched, pre_accept, kinds, close_code, fail_kind, ending, variant, res):
+        o, steps, final, waiting, undelivered, ids, left = res
+        case = {'capacity': 0, 'events': ' '.join(evtoks), 'schedule': sched, 'accept_first': pre_accept, 'receive_kinds': kinds, 'close_code': close_code,
+                'fail': fail_kind, 'ending': ending, 'other_payload_key_is_None': variant, 'legend': LEGEND,
+                'steps': ['%s -> %s %s' % tuple(x) for x in steps][:120], 'observed': o['observed']}
+        obs = [x[1] for x in steps]
+        exp = ids[:ids.index(DISC) + 1] if DISC in ids else ids
+        got = o['observed']
+        first_disc = next((i for i, x in enumerate(obs) if x.startswith('wsdE:')), None)
+        closed_otherwise = any(x.startswith(('closeSent', 'sendWsd', 'sendVE')) for x in (obs if first_disc is None else obs[:first_disc]))
+        # 1. FIFO / once / lossless
+        bad = None
+        if got != exp[:len(got)]:
+            bad = 'the receives consumed %r, which is not a prefix of the client\'s events %r (order / duplication / loss)' % (got, exp)
+        elif o['errors']:
+            bad = '; '.join(o['errors'])
+        elif ending == 'drain' and 'acceptOk' in obs and not closed_otherwise and got != exp:
+            bad = 'lost: the receives consumed %r of %r after everything was handed over and received' % (got, exp)
+        ctx.oracle('the application receives exactly the client\'s messages, in order, each once; the disconnect after the messages that preceded it',
+                   bad is None, bad, case)
+        # 2. the disconnect is sticky: every later receive raises WebSocketDisconnected with the client's code, and consumes nothing
+        bad = None
+        if first_disc is not None:
+            want = 'wsdS:' + obs[first_disc][5:]
+            for lab, ob, _ in steps[first_disc + 1:]:
+                if lab == 'D':
+                    bad = 'a receive consumed an event (%s) after the disconnect had been reported' % ob; break
+                if lab[0] == 'R' and ob != want:
+                    bad = 'a receive after the reported disconnect gave %s instead of %s' % (ob, want); break
+        ctx.oracle('after WebSocketDisconnected was raised for the client\'s disconnect every later receive raises it again, with the same code',
+                   bad is None, bad, case)
+        # 3. nothing is buffered
+        b = o['bad_pull'] or ('%d pulls outstanding at once' % o['maxpulls'] if o['maxpulls'] > 1 else None)
+        ctx.oracle('unbuffered mode: one pull per receive in progress, nothing pulled ahead', b is None, b, case)
+        # 4. no receive is left waiting while the server has an event for it
+        bad = None
+        if ending == 'drain' and waiting and undelivered > 0:
+            bad = 'a receive is still waiting although the server has %d event(s) to hand over' % undelivered
+        elif left:
+            bad = '%d task(s) still running after close()' % left
+        ctx.oracle('a receive that can be satisfied is never left waiting', bad is None, bad, case)
+        sess.case({k: case[k] for k in ('events', 'schedule', 'accept_first', 'receive_kinds', 'close_code', 'fail', 'ending', 'other_payload_key_is_None')})
+        sess.op('run ' + ' '.join(evtoks) + ' | ' + ' '.join(x[0] for x in steps), ' '.join('%s/%s' % (x[1], x[2]) for x in steps) + ' | ' + final)
+        ctx.seen(('u', tuple(evtoks), sched, pre_accept, kinds, close_code, fail_kind, ending, variant), any(x.startswith('ret:') for x in obs))
+        ctx.count('unbuffered_runs'); ctx.count('unbuffered_ending_' + ending)
+        for pre, name in (('wsdE', 'unbuffered_disconnect_received'), ('wsdS', 'unbuffered_receive_on_closed_socket'), ('perr', 'unbuffered_payload_type_error'),
+                          ('cancelled', 'unbuffered_receive_cancelled_while_parked'), ('closeSent', 'unbuffered_closed_by_app'), ('sendWsd', 'unbuffered_send_saw_disconnect'),
+                          ('sendRaised', 'unbuffered_send_error_passed_through'), ('na', 'unbuffered_operation_not_allowed')):
+            if any(x.startswith(pre) for x in obs): ctx.count(name)
+        if first_disc is not None and any(x == 'ret:' or x.startswith('ret:') for x in obs[first_disc:]):
+            ctx.count('unbuffered_message_after_disconnect')   # never expected; the oracle above fails then
+
+    async def main():
+        rnd = ctx.rng
+        i, nsh = ctx.shard
+        ks = (1, 2) if ctx.quick else (1, 2, 3)
+        for si, sched in enumerate(schedules(ctx.quick)):
+            for k in ks:
+                if (si + k) % nsh != i:
+                    continue
+                for disc in (None, 'd1001', 'd-'):
+                    evtoks = ['t%d' % n for n in range(k)] + ([disc] if disc else [])
+                    endings = ('drain', 'close') if len(sched) <= (3 if ctx.quick else 5) else ('drain',)
+                    for ending in endings:
+                        args = (evtoks, sched, True, 't', None, None, ending, False)
+                        judge_u(*args, await run_u(*args))
+        for _ in range(ctx.n(3000, 40000)):
+            k = rnd.randint(0, 6)
+            evtoks = [rnd.choice('ttb') + str(n) for n in range(k)]
+            r = rnd.random()
+            if r < 0.6:
+                evtoks.append(rnd.choice(['d1001', 'd1000', 'd-', 'd4000', 'd1006', 'd3999', 'd0']))
+                if rnd.random() < 0.15:
+                    evtoks.append('t%d' % k)          # the server offers something after the disconnect: it must never be pulled
+            sched = ''.join(rnd.choice('DDDRRRYYYYCSSXFA') for _ in range(rnd.randint(3, 30)))
+            pre_accept = rnd.random() < 0.85
+            kinds = rnd.choice(['t', 't', 'd', 'td', 'ttd', 'dt'])
+            close_code = rnd.choice([None, None, 1000, 1001, 3000, 4999, 999, 0, 1004, 1005, 1006, 1014, 1015, 1999, 2000, 1003, 1007])
+            fail_kind = rnd.choice(['ok1000', 'subproto', 'other', 'os:-', 'os:x', 'os:1001', 'os:1006', 'os:4000', 'os:0000'])
+            ending = 'close' if rnd.random() < 0.25 else 'drain'
+            args = (evtoks, sched, pre_accept, kinds, close_code, fail_kind, ending, rnd.random() < 0.3)
+            judge_u(*args, await run_u(*args))
+            ctx.count('unbuffered_random_runs')
+    asyncio.run(main())
+    sess.finish()
 
 
 def run(ctx):
@@ -375,13 +691,18 @@ def run(ctx):
         ctx.notes.append('shard %d: held == capacity + 1 (F13) observed in %d runs; the first %d are recorded as failures of oracle %r, the rest only counted'
                          % (ctx.shard[0], n13, f13_recorded[0], F13_NAME))
     sess.finish()
+    unbuffered_session(ctx, wsmod, errors)
 
 
 LEVEL_TEXT = ('Machine-checked proofs (Lean 4) over an atomic-segment transition system of falcon/asgi/ws.py _BufferedReceiver (pump task, receive(), cancellation of a parked '
               'receive, the flag read by WebSocket._send, stop()): the safety invariant is preserved by every segment (segments_preserve), every segment conserves '
               'returned ++ held = held ++ delivered as lists (segments_conserve), hence every accepted interleaving is FIFO, lossless and duplicate-free (fifo_lossless_once); '
               'held <= capacity + 1 with the exact shape of the excess (held_le_capacity_succ, held_succ_only_when_full, f13_witness); no lost wake-up; monotone, promptly set '
-              'disconnect flag; stop() leaves no pump segment enabled. Any enabled segment may fire, which over-approximates asyncio\'s ready queue. The model is tied to the real '
+              'disconnect flag; stop() leaves no pump segment enabled; every accepted log is a run of the plain FIFO queue under the abstraction held (buffered_refines_fifo). '
+              'Unbuffered mode (max_receive_queue = 0, the server\'s receive bound directly) has its own small-step model Wu (accept / receive call / hand-over+resume / cancel / send with server failure classes / close): '
+              'for every schedule handed-over ++ at-the-server = arrived and observed = handed-over (fifo_lossless_once, nothing_buffered), the disconnect is consumed exactly after everything before it and is sticky '
+              '(disconnect_after_preceding, disconnect_sticky), a parked receive with an event available can always complete (parked_receive_completes); both paths refine the same FIFO specification '
+              '(unbuffered_refines_fifo, buffered_unbuffered_agree). Any enabled segment may fire, which over-approximates asyncio\'s ready queue. The model is tied to the real '
               'falcon.asgi.ws.WebSocket on every run: the object is driven on a scripted event loop through every schedule up to the stated bounds (and random longer ones) with a '
               'logging deque and future factory, and the logged step sequence must be accepted by the compiled trace-inclusion checker with matching final observables; an '
               'independent oracle written from the statement decides failing schedules.')
